@@ -1131,3 +1131,58 @@ def fam_textfit(rng, sid0, n):
         sc.feed(b"AT" + cmd.name.encode() + (b"=?\n" if which == "read" else b"?\n")).settle(6000)
         out.append(sig(sc, which, L, cap, shared, cmd.desc is None))
     return out
+
+
+# --------------------------------------------------------------------------- unregistered command descriptors (events only)
+
+def fam_extcmd(rng, sid0, n):
+    """Events triggered with command descriptors that are not part of the table (the API accepts any descriptor): names equal
+    to / prefixes of registered names, own variables, handler scripts that release a hold, observers asked about them."""
+    out = []
+    for i in range(n):
+        qcap = [1, 2, 3, 8][i % 4]
+        cC = Cmd("+C", hx=True, hr=True, hw=True, vars=[Var(UINT, 1, RW, "c", mem=b"\x07")])
+        cU = Cmd("+U", hr=rng.random() < 0.5, vars=[Var(UINT, 2, RW, "u", mem=b"\x05\x00")])
+        cH = Cmd("+H", hx=True)
+        x1 = Cmd(rng.choice(["+U", "+X", "+C", "+"]), hr=rng.random() < 0.6, ht=rng.random() < 0.4, desc=rng.choice([None, "ext"]),
+                 vars=[Var(rng.choice([INT, UINT, HEX]), rng.choice([1, 2, 4]), rng.choice([RW, RO, WO]), rng.choice([None, "x"]), vr=rng.random() < 0.3,
+                           mem=bytes(rng.randrange(256) for _ in range(4))[:1])] if False else
+                      [Var(UINT, 1, rng.choice([RW, RO, WO]), rng.choice([None, "x"]), vr=rng.random() < 0.3, mem=bytes([rng.randrange(256)]))])
+        x2 = Cmd("+Y", hr=True, ht=True, vars=[Var(STRING, 4, RW, "s", mem=b"ab\x00\x00"), Var(BUFHEX, 2, RW, None, mem=b"\x12\xab")])
+        shared = rng.random() < 0.5
+        sc = Scenario(sid0 + i, [(False, [cC, cU]), (rng.random() < 0.3, [cH])], qcap=qcap, bufsize=rng.choice([40, 64]) if shared else 32,
+                      usize=-1 if shared else rng.choice([12, 24, 32]), grain=rng.choice(["step", "step", "compact"]), auto="bhfe",
+                      meta={"family": "fam_extcmd"})
+        sc.xcmds = [x1, x2]
+        X1, X2 = 3, 4
+        for _ in range(12):
+            sc.hs(X1, "r", "e", ret=rng.choice([R_DATA_OK, R_DATA_OK, R_OK, R_ERROR, R_DATA_NEXT, R_NEXT, R_HOLD_EXIT_OK, R_HOLD_EXIT_ERROR]),
+                  data=rng.choice([None, None, b"xx", b""]))
+            sc.hs(X1, "t", "e", ret=rng.choice([R_DATA_OK, R_OK, R_NEXT, R_LIST]))
+            sc.hs(X2, "r", "e", ret=rng.choice([R_DATA_OK, R_DATA_NEXT, R_OK]), act=rng.choice([None, None, "trig:%d:r" % X1, "q:full", "hexit:0"]))
+            sc.hs(X2, "t", "e", ret=rng.choice([R_DATA_OK, R_OK]))
+            sc.hs(1, "r", "e", ret=rng.choice([R_DATA_OK, R_OK]))
+        sc.hs(2, "x", "c", ret=R_HOLD)
+        sc.hs(0, "x", "c", ret=R_OK, act="trig:%d:%s" % (rng.choice([X1, X2]), rng.choice("rt")))
+        sc.wrs(gen.rand_wsched(rng, 400))
+        sc.rds(gen.rand_sched(rng, 200))
+        for _ in range(rng.choice([12, 24])):
+            r = rng.random()
+            if r < 0.4:
+                for _ in range(rng.randint(1, qcap + 1)):
+                    sc.trig(rng.choice([X1, X1, X2, 1]), rng.choice("rt"), api=rng.choice(["trig", "trigr", "trigt"]))
+            elif r < 0.6:
+                sc.svc(rng.randint(1, 30))
+            elif r < 0.7:
+                sc.qbuf(rng.choice([X1, X2, 1]), rng.choice("rtn"))
+            elif r < 0.75:
+                sc.qproc(1)
+            elif r < 0.9:
+                sc.feed(rng.choice([b"AT+C\n", b"AT+C?\r\n", b"AT+U?\n", b"AT+H\n", b"AT+X\n", b"AT+Y?\n", b"AT+U=3\n", b"AT+\n"]))
+            else:
+                sc.settle(6000)
+        sc.settle(8000)
+        sc.hexit(0)
+        sc.settle(8000)
+        out.append(sig(sc, qcap, x1.name, shared))
+    return out
